@@ -260,4 +260,11 @@ theorem nInsertList_view (st : St) (path : List Nat) (specs : List Spec) (index 
         · exact ⟨kindsOf_setPath _ _ _ c hc hh.1,
             nsPairs_of_view (nsView_setPath _ _ _ c hc hh.1 hh.2.1 hh.2.2)⟩
 
+/-- a text that is not a complete rule changes nothing -/
+theorem nSetBroken_state (st : St) (path : List Nat) : (nSetBroken st path).1 = st := by
+  unfold nSetBroken
+  split
+  · rfl
+  · split <;> rfl
+
 end CssVerif.SheetEdit
